@@ -668,4 +668,29 @@ def aliasedBlobs (s : Store) : List State :=
   | none => []
   | some w => s.blobs.map fun _ => w
 
+/-! ## the order of the serialised code list
+
+`codeFromState` walks `state.Code` once: a code object's parent is looked up among the code
+objects created BEFORE it, and the first element becomes the entry point.  The file is
+therefore only meaningful in an order that puts parents first; `stateFromCode` writes the
+Flatten order.  `State.reorder` is the same file with the list taken in another order. -/
+
+/-- the same state with its code list taken in the order `ord` (positions of the original list) -/
+def State.reorder (ord : List Nat) (s : State) : State :=
+  { s with code := ord.filterMap fun i => s.code[i]? }
+
+/-- ids of the serialised code objects, in file order -/
+def State.codeIds (s : State) : List Bytes := s.code.map (·.id)
+
+/-- ids of the code tree in Flatten order (Spec: this is the order of the file) -/
+def flattenIds (p : Prog) : List Bytes :=
+  (flattenOrder p.nodes).filterMap fun i => (p.nodes[i]?).map (·.id)
+
+/-- some code object of the list names a parent that no EARLIER code object (nor one of `seen`) has -/
+def orphanFrom (seen : List Bytes) : List CodeDef → Bool
+  | [] => false
+  | d :: ds => (d.parentID != [] && !seen.contains d.parentID) || orphanFrom (seen ++ [d.id]) ds
+
+def State.childBeforeParent (s : State) : Bool := orphanFrom [] s.code
+
 end Risor.C17
